@@ -657,3 +657,158 @@ def C10(ctx):
         if not sync_active(ctx, i, classes):
             break
     return dict(nontrivial=nontrivial, classes=classes)
+
+
+# ---------------------------------------------------------------------------------------------- C03
+def parse_probe(t):
+    """'PB{Root=S1,S2;M1=..;v_active_recursive=a,b,;act=..;byid:M=..;fl:..}' -> dict"""
+    out = {}
+    for p in t[3:-1].split(';'):
+        if p:
+            k, _, v = p.partition('=')
+            out[k] = [x for x in v.split(',') if x != '']
+    return out
+
+
+def C03(ctx):
+    """Active configuration integrity: entry/exit ledger alternates, one ledger-active state per region of every active
+    machine at each quiescent point, and every introspection API describes exactly that set; ids follow the documented
+    numbering; stop() exits each active state once, innermost first; restart of a history-free machine enters the initial
+    states. Model-free."""
+    from .static import documented_ids
+    st = ctx.static
+    spec = ctx.spec
+    rootname = spec['root']['name']
+    dialect = dialect_of(ctx.cfg)
+    classes = Counter()
+    nontrivial = []
+    # 4. numbering: the ids the library assigns (reported through its own metafunction) follow the documented rule
+    idmap = ctx.job.get('idmap')
+    if idmap:
+        for nm, m in st.machine.items():
+            exp = documented_ids(m, dialect)
+            if idmap.get(nm) != exp:
+                fail('C03', 'state ids of machine %s do not follow the documented numbering: library %s, documented %s' % (nm, idmap.get(nm), exp), ctx, None)
+    active = {}        # state/machine name -> bool (ledger)
+    started = False
+    interesting = False
+
+    def owner_active(name):
+        if name == rootname:
+            return True
+        mach = st.state_owner[name][0]
+        return active.get(mach, False)
+
+    for i, c in enumerate(ctx.case):
+        if i >= len(ctx.sut):
+            break
+        toks = ctx.sut[i]
+        if any(t.startswith(('ESCAPED', '!throw', 'xc:')) for t in toks):
+            classes['exception_history_skipped'] += 1
+            break
+        exits_in_op = []
+        entered_in_op = []
+        for t in toks:
+            p = parse(t)
+            if not p or p[0] not in ('en', 'ex'):
+                continue
+            name = p[1]
+            if p[0] == 'en':
+                if active.get(name):
+                    fail('C03', 'entry behaviour of %s invoked while it is already entered (entry/exit do not alternate)' % name, ctx, i)
+                if not owner_active(name):
+                    fail('C03', 'substate %s entered while its submachine %s is not active' % (name, st.state_owner[name][0]), ctx, i)
+                active[name] = True
+                entered_in_op.append(name)
+            else:
+                if not active.get(name):
+                    fail('C03', 'exit behaviour of %s invoked although it is not entered (entry/exit do not alternate)' % name, ctx, i)
+                if name in st.machine:
+                    left = [s for s in st.state_owner if st.state_owner[s][0] == name and active.get(s)]
+                    if left:
+                        fail('C03', 'submachine %s exited before its active substates %s' % (name, left), ctx, i)
+                active[name] = False
+                exits_in_op.append(name)
+        if entered_in_op and any(n in st.machine and n != rootname for n in entered_in_op) or len(exits_in_op) > 2 or '!subf' in ' '.join(toks) or '!subr' in ' '.join(toks):
+            interesting = True
+        if c['op'] == 'S':
+            started = True
+            # 5b. a history-free machine starts from its initial states: after a machine's own entry the next state entered in
+            # each of its regions is the region's initial state
+            if all(m.get('history', 'none') == 'none' for m in st.machine.values()):
+                first = {}
+                for n in entered_in_op:
+                    if n == rootname:
+                        continue
+                    key = st.state_owner[n]
+                    first.setdefault(key, n)
+                for (mach, reg), n in first.items():
+                    init = st.machine[mach]['regions'][reg][0]
+                    if mach == rootname and n != init:
+                        fail('C03', 'start(): region %d of %s first entered %s instead of its initial state %s' % (reg, mach, n, init), ctx, i)
+        if c['op'] == 'T':
+            # 5a. stop() exits exactly the states that were active, each once (the ledger checks above) and leaves nothing active
+            still = [n for n, a in active.items() if a]
+            if still and started:
+                fail('C03', 'after stop() the ledger still has entered states %s (no exit invoked)' % still, ctx, i)
+            if exits_in_op and exits_in_op[-1] != rootname:
+                fail('C03', 'stop(): the machine\'s own exit is not the last exit', ctx, i)
+            started = False
+        # quiescent point checks
+        pb = [t for t in toks if t.startswith('PB{')]
+        if not pb:
+            continue
+        pr = parse_probe(pb[-1])
+        led = {n for n, a in active.items() if a}
+        if started:
+            for nm in [n for n in st.machine if n == rootname or active.get(n)]:
+                if nm != rootname and not active.get(nm):
+                    continue
+                if nm == rootname and not active.get(rootname):
+                    continue
+                m = st.machine[nm]
+                for ri, reg in enumerate(m['regions']):
+                    act = [s for s in reg if active.get(s)]
+                    if len(act) != 1:
+                        fail('C03', 'region %d of active machine %s has %d entered states %s at a quiescent point' % (ri, nm, len(act), act), ctx, i)
+                    got = pr.get(nm, [None] * len(m['regions']))[ri]
+                    if got != act[0]:
+                        fail('C03', 'current_state()/get_active_state_ids() of %s region %d reports %s but the entered state is %s' % (nm, ri, got, act[0]), ctx, i)
+            want = led - {rootname}
+            if 'act' in pr and set(pr['act']) != want:
+                fail('C03', 'is_state_active<> true for %s but the entered states are %s' % (sorted(pr['act']), sorted(want)), ctx, i)
+            if 'v_active_recursive' in pr:
+                v = pr['v_active_recursive']
+                if sorted(v) != sorted(want):
+                    fail('C03', 'active-state visitor visited %s but the entered states are %s' % (sorted(v), sorted(want)), ctx, i)
+            if 'v_active_non_recursive' in pr:
+                rootact = sorted(s for s in want if st.state_owner[s][0] == rootname)
+                if sorted(pr['v_active_non_recursive']) != rootact:
+                    fail('C03', 'non-recursive active visitor visited %s, root active states are %s' % (pr['v_active_non_recursive'], rootact), ctx, i)
+            nontrivial_key = (spec['id'], tuple(sorted(want)))
+            if interesting:
+                nontrivial.append(nontrivial_key)
+                classes['quiescent_after_interesting'] += 1
+            classes['quiescent_points'] += 1
+        else:
+            if dialect == 'mp11':
+                for k in ('v_active_recursive', 'v_active_non_recursive', 'act'):
+                    if pr.get(k):
+                        fail('C03', 'backmp11 reports active states %s through %s while the machine is not running' % (pr[k], k), ctx, i)
+        if 'v_all_recursive' in pr:
+            allst = sorted(st.state_owner)
+            if sorted(pr['v_all_recursive']) != allst:
+                fail('C03', 'all-states recursive visitor visited %s, the machine has %s' % (sorted(pr['v_all_recursive']), allst), ctx, i)
+            rootst = sorted(s for s in st.state_owner if st.state_owner[s][0] == rootname)
+            if sorted(pr.get('v_all_non_recursive', [])) != rootst:
+                fail('C03', 'all-states non-recursive visitor visited %s, root has %s' % (pr.get('v_all_non_recursive'), rootst), ctx, i)
+        for k, v in pr.items():
+            if k.startswith('byid:'):
+                nm = k[5:]
+                exp = documented_ids(st.machine[nm], dialect)
+                inv = [None] * len(exp)
+                for s, idx in exp.items():
+                    inv[idx] = s
+                if v != inv:
+                    fail('C03', 'get_state_by_id of %s returns %s, documented numbering gives %s' % (nm, v, inv), ctx, i)
+    return dict(nontrivial=nontrivial, classes=classes)
